@@ -57,8 +57,10 @@ func builderWrites(f *ssa.Function) []bwrite {
 			out = append(out, w)
 		case "(*strings.Builder).WriteByte", "(*strings.Builder).WriteRune", "(*strings.Builder).Write":
 			w := bwrite{in: in}
-			if _, ok := stripConv(cc.Args[1]).(*ssa.Const); !ok {
+			if k, ok := stripConv(cc.Args[1]).(*ssa.Const); !ok {
 				w.dyn = []ssa.Value{cc.Args[1]}
+			} else if n, isInt := constInt(k); isInt && n > 0 && n < 0x110000 {
+				w.konst = string(rune(n)) // WriteByte(',') / WriteRune(',') write that one character
 			}
 			out = append(out, w)
 		}
